@@ -325,6 +325,111 @@ def record_touched_triples():
         out.append({'b': base, 'l': l, 'r': r, 'src': 'crafted:record_touched'})
     return out
 
+_LIFT_LEVELS = ('nb', 'cell', 'output')
+_LIFT_CONFLICTS = ('change-change', 'add-add', 'remove-change', 'in-group', 'nested-dict')
+_LIFT_PAIRS = ('edit-edit', 'add-remove', 'edit-deep', 'deep-deep')
+_LIFT_LATER = ('source-edit', 'cell-append', 'cell0-md', 'source-conflict', 'cell0-delete', 'same-cell-outputs')
+
+
+def _lift_apply(mdl, mdr, conflict, pair, depth, gname, cname, salt=0):
+    """mdl / mdr: the SAME metadata dict (already holding the group and the conflict key) in local / remote, edited in place:
+    a genuine conflict inside the dict + two one-sided, non-conflicting edits below one shared sub-key of it"""
+    def grp(m): return m['outer'][gname] if depth else m[gname]
+    gl, gr = grp(mdl), grp(mdr)
+    if conflict == 'change-change': mdl[cname] = 'cL%d' % salt; mdr[cname] = 'cR%d' % salt
+    elif conflict == 'add-add': mdl[cname + '+'] = 'cL'; mdr[cname + '+'] = {'r': salt}
+    elif conflict == 'remove-change': del mdl[cname]; mdr[cname] = 'cR%d' % salt
+    elif conflict == 'in-group': gl['c'] = 'L%d' % salt; gr['c'] = 'R%d' % salt
+    else: mdl['nest']['k'] = 2 + salt; mdr['nest']['k'] = 'three'
+    if pair == 'edit-edit': gl['a'] = gl['a'] + 10 + salt; gr['b'] = gr['b'] + ' (remote)'
+    elif pair == 'add-remove': gl['new'] = [1, salt]; del gr['b']
+    elif pair == 'edit-deep': gl['a'] = -1 - salt; gr['sub']['x'] = 'x-remote'
+    else: gl['sub']['x'] = 100 + salt; gr['sub']['y'] = 200 + salt
+
+
+def _lift_base_md(md, depth, gname, cname, conflict):
+    group = {'a': 1, 'b': 'two', 'c': True, 'sub': {'x': 1, 'y': 2}}
+    if depth: md['outer'] = {gname: group, 'other': 0}
+    else: md[gname] = group
+    if conflict != 'add-add': md[cname] = 'c0'
+    md['nest'] = {'k': 1, 'j': 1}
+
+
+def lifted_group_triples(r, n_random, gennb, quick=True):
+    """A resolver that LIFTS decisions back to one path (record-conflict on /metadata, /cells/*/metadata and
+    /cells/*/outputs/*/metadata wraps every decision of the dict into patch ops at the dict) meets: a genuine conflict in the
+    dict, two one-sided non-conflicting edits below ONE shared sub-key of it (so the lifted decisions carry several patch
+    entries for the same key), and some other change whose decision is applied AFTER that group (decisions are applied in
+    reverse path order: /metadata first, then /cells from the last cell to the first; inside a cell source, metadata,
+    outputs from the last output to the first).  Systematic part: level x conflict shape x shape of the one-sided pair
+    (pairwise-covering half in the quick tier), with depth of the shared key, kind of the later change, minor and the
+    local/remote orientation cycling; random part: the same on generated notebooks."""
+    def stream(t): return {'output_type': 'stream', 'name': 'stdout', 'text': t}
+    def disp(): return {'output_type': 'display_data', 'data': {'text/plain': 'fig'}, 'metadata': {}}
+    def code(minor, src, i, outs, ec):
+        c = {'cell_type': 'code', 'execution_count': ec, 'metadata': {}, 'outputs': outs, 'source': src}
+        if minor >= 5: c['id'] = 'lift-%d' % i
+        return c
+    out = []; n = 0
+    for li, level in enumerate(_LIFT_LEVELS):
+        for ci, conflict in enumerate(_LIFT_CONFLICTS):
+            for pi, pair in enumerate(_LIFT_PAIRS):
+                n += 1
+                if quick and (li + ci + pi) % 2: continue
+                depth = (n // 2) % 2; later = _LIFT_LATER[n % len(_LIFT_LATER)]; minor = (5, 4, 5, 2)[n % 4]; swap = (n // 3) % 2
+                gname = ('settings', 'grp', 'x/y')[n % 3]; cname = ('owner', 'zz', 'a0')[(n // 2) % 3]   # the conflict key sorts before / after the group
+                b = {'cells': [code(minor, 'x = 1\ny = 2\n', 0, [stream('zero\n')], 1),
+                               code(minor, 'def f():\n    return 3\n', 1, [stream('one\n'), disp()], 2)],
+                     'metadata': {}, 'nbformat': 4, 'nbformat_minor': minor}
+                def md(nb):
+                    if level == 'nb': return nb['metadata']
+                    if level == 'cell': return nb['cells'][1]['metadata']
+                    return nb['cells'][1]['outputs'][1]['metadata']
+                _lift_base_md(md(b), depth, gname, cname, conflict)
+                l = copy.deepcopy(b); rm = copy.deepcopy(b)
+                _lift_apply(md(l), md(rm), conflict, pair, depth, gname, cname, n % 3)
+                if later == 'source-edit': l['cells'][0]['source'] += 'z = 3\n'
+                elif later == 'cell-append': rm['cells'].append(code(minor, 'appended()\n', 2, [], None))
+                elif later == 'cell0-md': rm['cells'][0]['metadata']['k'] = 1
+                elif later == 'source-conflict': l['cells'][0]['source'] = 'x = 10\ny = 2\n'; rm['cells'][0]['source'] = 'x = 11\ny = 2\n'
+                elif later == 'same-cell-outputs': l['cells'][1]['outputs'][0]['text'] = 'one\nmore\n'
+                if later == 'cell0-delete':     # the cell BEFORE the one holding the group goes away (local) -- after the edits above
+                    del l['cells'][0]
+                if swap: l, rm = rm, l
+                out.append({'b': b, 'l': l, 'r': rm, 'src': 'crafted:lifted_group_not_last'})
+    for i in range(n_random):
+        minor = r.choice([0, 3, 4, 5, 5])
+        b = gennb.gen_notebook(r, minor=minor, ncells=r.choice([1, 2, 3]), rich=False)
+        used = gennb.used_ids(b)
+        # where the group lives: notebook metadata, a cell's metadata, or the metadata of a display_data output
+        places = [('nb', None, None)] + [('cell', j, None) for j in range(len(b['cells']))] + \
+                 [('output', j, k) for j, c in enumerate(b['cells']) for k, o in enumerate(c.get('outputs', [])) if o.get('output_type') in ('display_data', 'execute_result')]
+        level, j, k = r.choice(places)
+        def md(nb):
+            if level == 'nb': return nb['metadata']
+            if level == 'cell': return nb['cells'][j]['metadata']
+            return nb['cells'][j]['outputs'][k]['metadata']
+        conflict = r.choice(_LIFT_CONFLICTS); pair = r.choice(_LIFT_PAIRS); depth = r.choice([0, 0, 1])
+        gname = r.choice(['settings', 'grp', 'custom2', 'x/y']); cname = r.choice(['owner', 'zz', 'a0'])
+        _lift_base_md(md(b), depth, gname, cname, conflict)
+        l = copy.deepcopy(b); rm = copy.deepcopy(b)
+        _lift_apply(md(l), md(rm), conflict, pair, depth, gname, cname, r.randint(0, 5))
+        # something applied later: a change in an earlier cell (any cell for the notebook level), or a cell inserted in front
+        side = r.choice([l, rm]); first = len(b['cells']) if level == 'nb' else j
+        what = r.choice(['source', 'source', 'metadata', 'insert-front', 'both-source']) if first > 0 else 'insert-front'
+        if what == 'insert-front': side['cells'].insert(0, gennb.gen_cell(r, minor, used, rich=False))
+        else:
+            q = r.randrange(first); c = b['cells'][q]
+            if what == 'metadata': side['cells'][q]['metadata']['lifted_k'] = r.randint(0, 9)
+            else:
+                side['cells'][q]['source'] = gennb.edit_source_text(r, c['source'], c['cell_type']) if c['source'] else 'new source\n'
+                if what == 'both-source':
+                    other = rm if side is l else l
+                    other['cells'][q]['source'] = c['source'] + ('' if c['source'].endswith('\n') or not c['source'] else '\n') + 'other side\n'
+        out.append({'b': b, 'l': l, 'r': rm, 'src': 'crafted:lifted_group_not_last_gen'})
+    return out
+
+
 def crafted_triples(r, n, gennb):
     """collisions the edit-script generator rarely produces: both sides append different outputs / add the same attachment
     name / add the same metadata key / insert similar cells with different attachments, at a random cell of a generated base"""
